@@ -6,6 +6,70 @@ from harness.checks.c04 import pcfg, trace_constants, same_val_registers, CODE_D
 EVK = ('op', 'k', 'v', 'lo', 'hi', 'xlo', 'xhi', 'path', 'res', 'sticky', 'proj', 'nreg', 'nrc', 'swept')
 
 
+def validate_evict(ck, results):
+    """histories recorded by the evict worker, judged by TraceEvict (results as the sorted map says, structure as Persist
+    predicts, reads register and declare nothing, nothing pinned after any call); D18 / D35 attributed by the specification"""
+    groups = {}
+    for job, res, err in results:
+        ident = dict(fam=job['fam'], impl=job['impl'], is_set=job['is_set'], sizes=[job['leaf'], job['internal']], seed=job['seed'],
+                     kkeys=bool(job.get('kkeys')))
+        if err:
+            ck.violation('evict worker died %s: %s' % (ident, err), dict(ident, kind='crash', err=err))
+            continue
+        key = (job['leaf'], job['internal'], job['impl'], same_val_registers(job['fam'], job['impl'], job['is_set']), job['is_set'])
+        for tr in res['traces']:
+            groups.setdefault(key, []).append((ident, tr))
+    for key, items in sorted(groups.items()):
+        traces = [[{k: (1 if 'sweep_at' in e else 0) if k == 'swept' else e.get(k, 0) for k in EVK} for e in tr] for _, tr in items]
+        sel = []
+        cut = {}        # trace index -> first event that ended outside the model vocabulary (judged only up to there)
+        for i, ((ident, tr), t) in enumerate(zip(items, traces)):
+            for j, e in enumerate(t):
+                odd = (not isinstance(e['res'], list) or
+                       any(isinstance(x, str) and (x.startswith('exc') or '?' in x) for x in _flat(e['res'])) or
+                       not _renderable([{k: v for k, v in e.items() if k not in ('res', 'xlo', 'xhi')}]))
+                if odd:
+                    cut[i] = j
+                    traces[i] = t[:j]
+                    break
+            sel.append(i)
+        bad, summ = judge.judge('TraceEvict', [traces[i] for i in sel], constants=trace_constants(*key), chunk=300)
+        ck.add_tlc(dict(generated=summ['generated'], distinct=summ['distinct'], wall_s=round(summ['wall_s'], 1)),
+                   'TraceEvict sizes=(%s,%s) impl=%s: %d histories' % (key[0], key[1], key[2], len(sel)))
+        ck.add_traces(len(sel))
+        ck.bump('trace_events', sum(len(traces[i]) for i in sel))
+        ck.bump('sweeps_between_calls', sum(1 for i in sel for e in traces[i] if e['op'] in ('evict', 'evictall')))
+        ck.bump('sweeps_inside_calls', sum(1 for i in sel for e in items[i][1] if 'sweep_at' in e))
+        rejected = {sel[ti] for (ti, line) in bad if summ.get('details', {}).get((ti, line), {}).get('why') != 'D18-taint'}
+        for i, j in cut.items():
+            if i not in rejected:       # everything before was as specified, then a call ended with something unforeseen
+                ident, tr = items[i]
+                ck.violation('%s: a call ended outside the model vocabulary: %s' % (ident, tr[j]),
+                             dict(ident, kind='malformed-trace', line=j, event=tr[j], history=[[x['op'], x['k'], x['v']] for x in tr[:j + 1]]))
+        for (ti, line) in bad:
+            ident, tr = items[sel[ti]]
+            why = summ.get('details', {}).get((ti, line), {}).get('why')
+            if why == 'D18-taint':
+                ck.known_finding('D18')
+                if 'D18' not in [f['id'] for f in ck.known]:
+                    ck.violation('%s: a ghost came back from a stale record (inline-leaf deviations), finding not listed' % (ident,),
+                                 dict(ident, kind='d18-unlisted', history=[[x['op'], x['k'], x['v']] for x in tr[:line + 1]]))
+                continue
+            e = tr[line]
+            if why and why.startswith('D35:') and 'D35' in [f['id'] for f in ck.known]:
+                # the specification attributes this rejection to the recorded finding (Python has no pins)
+                ck.known_finding('D35')
+                continue
+            ck.violation('%s %s %s sizes=%s: event %d (%s k=%s%s) -> %s: %s' % (
+                ident['fam'], ident['impl'], 'set' if ident['is_set'] else 'map', ident['sizes'], line, e['op'], e['k'],
+                ', sweep inside comparison %s' % e['sweep_at'] if 'sweep_at' in e else '', e['res'], why),
+                dict(ident, kind='trace-rejected', why=why, line=line, swept=('sweep_at' in e),
+                     opclass='write' if e['op'] in ('setitem', 'delitem', 'pop', 'setdefault', 'clear') else 'other', history=[[x['op'], x['k'], x['v'], x.get('path')] for x in tr[:line + 1]], event=e))
+        if sel:
+            ck.sample(dict(kind='validated history (first events)', owner=items[sel[0]][0],
+                           events=[[e['op'], e['k'], e['res'], e['sticky']] for e in items[sel[0]][1][:8]]))
+
+
 def main():
     ck = common.Check('C05')
     quick = ck.tier == 'quick'
@@ -86,65 +150,7 @@ def main():
                                  ntraces=(40 if impl == 'c' else 15) if quick else 400, length=50 if quick else 80,
                                  seed=ck.seed * 100000 + 5000 + len(plan), pure=(impl == 'py')))
     results = jobs.run_jobs('harness.workers.evict_worker', plan, pure=True)
-    groups = {}
-    for job, res, err in results:
-        ident = dict(fam=job['fam'], impl=job['impl'], is_set=job['is_set'], sizes=[job['leaf'], job['internal']], seed=job['seed'],
-                     kkeys=bool(job.get('kkeys')))
-        if err:
-            ck.violation('evict worker died %s: %s' % (ident, err), dict(ident, kind='crash', err=err))
-            continue
-        key = (job['leaf'], job['internal'], job['impl'], same_val_registers(job['fam'], job['impl'], job['is_set']), job['is_set'])
-        for tr in res['traces']:
-            groups.setdefault(key, []).append((ident, tr))
-    for key, items in sorted(groups.items()):
-        traces = [[{k: (1 if 'sweep_at' in e else 0) if k == 'swept' else e.get(k, 0) for k in EVK} for e in tr] for _, tr in items]
-        sel = []
-        cut = {}        # trace index -> first event that ended outside the model vocabulary (judged only up to there)
-        for i, ((ident, tr), t) in enumerate(zip(items, traces)):
-            for j, e in enumerate(t):
-                odd = (not isinstance(e['res'], list) or
-                       any(isinstance(x, str) and (x.startswith('exc') or '?' in x) for x in _flat(e['res'])) or
-                       not _renderable([{k: v for k, v in e.items() if k not in ('res', 'xlo', 'xhi')}]))
-                if odd:
-                    cut[i] = j
-                    traces[i] = t[:j]
-                    break
-            sel.append(i)
-        bad, summ = judge.judge('TraceEvict', [traces[i] for i in sel], constants=trace_constants(*key), chunk=300)
-        ck.add_tlc(dict(generated=summ['generated'], distinct=summ['distinct'], wall_s=round(summ['wall_s'], 1)),
-                   'TraceEvict sizes=(%s,%s) impl=%s: %d histories' % (key[0], key[1], key[2], len(sel)))
-        ck.add_traces(len(sel))
-        ck.bump('trace_events', sum(len(traces[i]) for i in sel))
-        ck.bump('sweeps_between_calls', sum(1 for i in sel for e in traces[i] if e['op'] in ('evict', 'evictall')))
-        ck.bump('sweeps_inside_calls', sum(1 for i in sel for e in items[i][1] if 'sweep_at' in e))
-        rejected = {sel[ti] for (ti, line) in bad if summ.get('details', {}).get((ti, line), {}).get('why') != 'D18-taint'}
-        for i, j in cut.items():
-            if i not in rejected:       # everything before was as specified, then a call ended with something unforeseen
-                ident, tr = items[i]
-                ck.violation('%s: a call ended outside the model vocabulary: %s' % (ident, tr[j]),
-                             dict(ident, kind='malformed-trace', line=j, event=tr[j], history=[[x['op'], x['k'], x['v']] for x in tr[:j + 1]]))
-        for (ti, line) in bad:
-            ident, tr = items[sel[ti]]
-            why = summ.get('details', {}).get((ti, line), {}).get('why')
-            if why == 'D18-taint':
-                ck.known_finding('D18')
-                if 'D18' not in [f['id'] for f in ck.known]:
-                    ck.violation('%s: a ghost came back from a stale record (inline-leaf deviations), finding not listed' % (ident,),
-                                 dict(ident, kind='d18-unlisted', history=[[x['op'], x['k'], x['v']] for x in tr[:line + 1]]))
-                continue
-            e = tr[line]
-            if why and why.startswith('D35:') and 'D35' in [f['id'] for f in ck.known]:
-                # the specification attributes this rejection to the recorded finding (Python has no pins)
-                ck.known_finding('D35')
-                continue
-            ck.violation('%s %s %s sizes=%s: event %d (%s k=%s%s) -> %s: %s' % (
-                ident['fam'], ident['impl'], 'set' if ident['is_set'] else 'map', ident['sizes'], line, e['op'], e['k'],
-                ', sweep inside comparison %s' % e['sweep_at'] if 'sweep_at' in e else '', e['res'], why),
-                dict(ident, kind='trace-rejected', why=why, line=line, swept=('sweep_at' in e),
-                     opclass='write' if e['op'] in ('setitem', 'delitem', 'pop', 'setdefault', 'clear') else 'other', history=[[x['op'], x['k'], x['v'], x.get('path')] for x in tr[:line + 1]], event=e))
-        if sel:
-            ck.sample(dict(kind='validated history (first events)', owner=items[sel[0]][0],
-                           events=[[e['op'], e['k'], e['res'], e['sticky']] for e in items[sel[0]][1][:8]]))
+    validate_evict(ck, results)
     # 4. spec -> code: cursors held across sweeps.  Behaviours of Iter.tla (an iterator or a lazy sequence opened
     #    over a range, stepped in some interleaving with mutations) replayed with the tree in the data manager:
     #    committed when the cursor is opened, the whole cache swept before every cursor step - the leaf the cursor
